@@ -49,6 +49,9 @@ if [ -f "$SRC/$RF.diff" ] && [ -s "$SRC/$RF.diff" ]; then
   git checkout -q -- src; 
   if git apply "$SRC/$RF.diff"; then
     cargo test --offline --lib >"$W/rsuite.log" 2>&1; RS=$?
+    for TRY in 2 3; do
+      if [ $RS -ne 0 ]; then cargo test --offline --lib >"$W/rsuite.log" 2>&1; RS=$?; fi
+    done
     cargo test --offline --test seed_demo >"$W/rdemo.log" 2>&1; RD=$?
     ROK=0
     if [ $RD -eq 0 ] && { [ $RS -eq 0 ] || ! grep -q "FAILED" <(grep -v "t::tests::test_moments" "$W/rsuite.log" | grep "^test .* FAILED" | grep -v "^test result"); }; then ROK=1; fi
